@@ -23,12 +23,17 @@ THEOREMS = [_T + t for t in [
     "F9_fixed_fair_counts_before_publishing",
     "F9b_fixed_fair_length_does_not_dip",
     "F10_fixed_fair_skips_idle_sender",
-    "fair_activation_protocol",
-    "fair_no_stranded_sender_when_quiescent",
+    "fair_activation_protocol_partial",
+    "fair_no_stranded_sender_when_quiescent_partial",
     "fair_subqueue_frame",
+    "fair_counting_identity_partial",
+    "fair_no_stranded_sender_partial",
+    "fair_hypothesis_instances",
+    "fair_never_consumes_uncounted",
     "fair_counting_identity",
     "fair_no_stranded_sender",
-    "fair_hypothesis_instances",
+    "fair_subqueue_accounting",
+    "fair_wellFormed_hyp",
     "C04_spec_fifo",
     "rq_run_conserve",
     "rq_deq_none",
@@ -121,7 +126,7 @@ JUDGE = True
 TIMEOUT = 900
 MANIFEST = {
     "level_text": "All nine mailbox algorithms are modelled in Lean at atomic-operation granularity (one transition per sync/atomic site of the Go code, labels as emitted by yieldinject) and tied to /repo by controlled-schedule replay: same step labels, same results with real-time stamps, same final drain. Kernel-checked: the full property C04_full (history oracle over all mailboxes, programs and schedules) is REFUTED (C04_refuted) by the witness F2 (Vyukov window, inherent), replayed on the real code (corpus/C04); eight further defects F3..F10 found by this check were repaired in /repo (fix: commits; F9: fair mailbox consumed a message before it was counted, counters drifted, sender stranded, message lost; F10: late activation, spurious nil) and their witness schedules are kept as regression tests on model and code; the reservation-queue specification is FIFO in reservation order and exactly-once for all event sequences (C04_spec_fifo, rq_run_conserve). UnboundedMailbox (the default mailbox, Vyukov MPSC list): forward simulation from the small-step model to the reservation queue for ALL schedules, any number of producers, one consumer (unbounded_forward_simulation, inductive invariant UB.Inv); corollaries for every run (unbounded_linearizable): values returned by Dequeue = the successful dequeues of the specification run = a prefix of the reservation sequence, which never repeats; accepted messages are dequeued or READY (never lost); the recycled sentinel is referenced by nobody (unbounded_recycled_not_aliased); empty-soundness under the guard 'no enqueue between reserve and publish' (C04_empty_sound_partial). Priority mailboxes: container/heap = stableHeap refines a priority queue for all operation sequences and an arbitrary strict weak order (Heap.push_inv/pop_inv/pop_min/pop_perm, heap_all_sequences); heap order is an invariant of every reachable configuration of all four priority mailbox models, so every removal takes a minimum (uprio_priority_order, intake_priority_order), priority-then-arrival for the stable variants (stable_priority_then_arrival); the bounded variants' counter never exceeds the capacity (bounded_priority_capacity); uprio's counter is exact and its critical section exclusive (uprio_empty_sound). NonBlockingBoundedMailbox (Vyukov ring): Owicki-Gries invariants for all schedules: at most size positions reserved and unreleased, slot marks, reject only when full, nil only when the head position is unpublished, no overwrite, no two owners of a position (ring_capacity, ring_reject_only_when_full, ring_nil_only_when_head_unpublished, ring_no_overwrite), and values: the messages returned by Dequeue are exactly the first dequeuePos messages of the reservation sequence, for every schedule (ring_fifo_exactly_once). UnboundedSegmentedMailbox (repaired): slot discipline and head-advance rule, segment-list invariant, and exactly-once + FIFO of the values across segment boundaries for every schedule (segmented_head_advance_rule, segmented_no_skipped_slot, segmented_segment_list, segmented_fifo_exactly_once).",
-    "level_note": "Partial: the simulation to the reservation queue is proved for UnboundedMailbox; for the intake-based priority mailboxes heap refinement, capacity and the Treiber-intake conservation (accepted = inserted into the heap, in acceptance order) and the value-level exactly-once statement (returned ++ heap ++ batch rest ++ stack is a permutation of the accepted messages, intake_exactly_once) are proved; for the fair mailbox the activation protocol is proved for all schedules up to one isolated step (fair_activation_protocol; the re-check with length <= 0 < pending) and its sub-queues are shown to be driven by UnboundedMailbox steps only (fair_subqueue_frame); the counting identity is proved, with 'no stranded sender' as its consequence, for all schedules on which no message is consumed before it is counted (fair_counting_identity, fair_no_stranded_sender; finite-support sum over sender keys plus a count over the thread list); that the repaired code (762e7d2) never does so, and the active-list structure, are not proved, so its composite exactly-once statement is tied and judged on every run only (design/C04.md says what is missing). BoundedMailbox (third-party Workiva ring buffer) is a black-box parameter, tied sequentially only. sync.Pool is pinned to one P without GC in the harness and modelled as private slot + LIFO. Counter wrap-around at 2^64 is not modelled.",
+    "level_note": "Partial: the simulation to the reservation queue is proved for UnboundedMailbox; for the intake-based priority mailboxes heap refinement, capacity and the Treiber-intake conservation (accepted = inserted into the heap, in acceptance order) and the value-level exactly-once statement (returned ++ heap ++ batch rest ++ stack is a permutation of the accepted messages, intake_exactly_once) are proved; for the repaired fair mailbox (240356c, 762e7d2, 6fbb6ce) it is proved for ALL schedules that no message is consumed before it is counted (fair_never_consumes_uncounted: Owicki-Gries over ghost reservation/counting lists per sender; sub-dequeues <= reservations <= counted, pending = counted - subtracted), hence the counting identity length = sum of pending +- in flight (fair_counting_identity) and 'no stranded sender' (fair_no_stranded_sender: a sender with counted messages is active or about to be re-checked, active at quiescence) unconditionally; its sub-queues are driven by UnboundedMailbox steps only (fair_subqueue_frame); theorems named _partial keep a hypothesis on the run; NOT proved: the structure of the active-senders list (an active sender is listed exactly once), so exactly-once of the composite is tied and judged on every run only (design/C04.md). BoundedMailbox (third-party Workiva ring buffer) is a black-box parameter, tied sequentially only. sync.Pool is pinned to one P without GC in the harness and modelled as private slot + LIFO. Counter wrap-around at 2^64 is not modelled.",
     "technique": "Lean 4 small-step models + controlled-schedule differential (cooperative scheduler injected at every atomic operation) + history oracle with real-time intervals",
 }
 TRUSTED = [
